@@ -1,6 +1,7 @@
 import GB.C03.ProofsPath
 import GB.C20.BridgeShape
 import GB.C03.ProofsStack
+import GB.Generated.Facts
 /-
   C03 — property theorems. Theorems only; helper lemmas live in Proofs*.lean.
   `Tmpl` is the parsed template (`gwbased.Parse`, property C20), `Table` the routing table as a list of
@@ -383,6 +384,27 @@ theorem C03_verb_presplit_fails :
     SegsMatch.nil
   have := SegsMatch.plain h1 h2
   simpa [joinSlash, litText, eof] using this
+
+/-- Regenerated go/ast facts (extract/c03.go): in the source of `PatternRouter.RouteHTTP` the verb is cut INSIDE the
+    per-route callback handed to `routes.iterate`, by that route's own verb — the callback reads `route.pattern.Verb()`,
+    tests `strings.HasSuffix(lastPathComponent, ":" + patternVerb)`, declares `verb` / `patternVerb` / `verbIdx` locally
+    and passes its own copy `matchComponents` and `verb` to `MatchAndEscape` in mode AllExceptReserved; outside the
+    callback nothing searches the path for a colon (no `strings.LastIndex*` / `Index*` / `Cut`). This is the shape
+    `stepRoute` models; a split moved in front of the loop (C03-m10) breaks this theorem even if no generated case
+    reached it. -/
+theorem C03_facts_verb_split :
+    "route.pattern.Verb" ∈ GB.Generated.c03RouteCallbackCalls ∧
+    "strings.HasSuffix" ∈ GB.Generated.c03RouteCallbackCalls ∧
+    "route.pattern.MatchAndEscape" ∈ GB.Generated.c03RouteCallbackCalls ∧
+    GB.Generated.c03RouteSuffixArgs = ["lastPathComponent", "\":\" + patternVerb"] ∧
+    GB.Generated.c03RouteMatchArgs = ["matchComponents", "verb", "runtime.UnescapingModeAllExceptReserved"] ∧
+    "verb" ∈ GB.Generated.c03RouteCallbackDecls ∧ "patternVerb" ∈ GB.Generated.c03RouteCallbackDecls ∧
+    "verbIdx" ∈ GB.Generated.c03RouteCallbackDecls ∧
+    (GB.Generated.c03RouteOuterCalls.all fun c =>
+      !(["strings.LastIndexByte", "strings.LastIndex", "strings.Index", "strings.IndexByte", "strings.Cut",
+         "strings.TrimSuffix", "strings.HasSuffix", "route.pattern.Verb"].contains c)) = true ∧
+    "pr.routes.iterate" ∈ GB.Generated.c03RouteOuterCalls := by
+  decide
 
 /-! ## Composition with the parser (property C20's model of `gwbased.Parse`)
 
